@@ -50,8 +50,21 @@ pub fn parse_uint(i: &[u8]) -> nom::IResult<&[u8], u64> {
     Ok((i, i.iter().fold(0, |res, &byte| (res << 8) | byte as u64)))
 }
 
+/// Maximum nesting depth of constructed elements accepted by the parser.
+const MAX_DEPTH: usize = 64;
+
 /// Parse raw BER data into a serializable structure.
 pub fn parse_tag(i: &[u8]) -> nom::IResult<&[u8], StructureTag> {
+    parse_tag_depth(i, 0)
+}
+
+fn parse_tag_depth(i: &[u8], depth: usize) -> nom::IResult<&[u8], StructureTag> {
+    if depth > MAX_DEPTH {
+        return Err(nom::Err::Failure(Error::from_error_kind(
+            i,
+            ErrorKind::TooLarge,
+        )));
+    }
     let (mut i, ((class, structure, id), len)) = tuple((parse_type_header, parse_length))(i)?;
 
     let pl: PL = match structure {
@@ -67,7 +80,18 @@ pub fn parse_tag(i: &[u8]) -> nom::IResult<&[u8], StructureTag> {
 
             let mut tv: Vec<StructureTag> = Vec::new();
             while content.input_len() > 0 {
-                let (j, sub) = parse_tag(content)?;
+                // The content octets of this element are all here, so an inner element
+                // which needs more of them can never be completed: that's an error, not
+                // a reason to wait for further input.
+                let (j, sub) = match parse_tag_depth(content, depth + 1) {
+                    Err(nom::Err::Incomplete(_)) => {
+                        return Err(nom::Err::Failure(Error::from_error_kind(
+                            content,
+                            ErrorKind::Eof,
+                        )))
+                    }
+                    res => res?,
+                };
                 content = j;
                 tv.push(sub);
             }
